@@ -429,6 +429,7 @@ type repoObs struct {
 	Changed      []string             `json:"changed"`      // entities whose artifact file changed
 	OtherChanged []string             `json:"otherChanged"` // any other path that changed, appeared or vanished
 	Generated    int                  `json:"generated"`
+	Written      []string             `json:"written,omitempty"` // in-process runs: the entities in the order their artifact was passed to WriteFile (repeats collapsed)
 	Pre          map[string]*artFacts `json:"preFacts"`
 	Post         map[string]*artFacts `json:"postFacts"`
 	HashClash    []string             `json:"hashClash"`
@@ -718,6 +719,10 @@ func (x *repoExec) perform(w *repoWorld, pre *absState, preFacts map[string]*art
 		j := bytes.Index(content, []byte("-----END PRIVATE KEY-----\n"))
 		stripped := append(append([]byte{}, content[:i]...), content[j+len("-----END PRIVATE KEY-----\n"):]...)
 		nw.fs.Put(art, stripped)
+	case "ResaveArt":
+		// saved again by an editor: the same hash line and blocks, followed by something that is no PEM block
+		tails := []string{"\n", "\n\n", "# checked 2024-05-05\n", "\r\n", "  \n", "-----BEGIN NOTHING"}
+		nw.fs.Put(art, append(append([]byte{}, nw.fs.Files[art].Data...), tails[x.rng.Intn(len(tails))]...))
 	case "Replace":
 		prof := -1 // the user-supplied certificate is made for the current effective configuration (profile part included)
 		if usesProfile(a.E) {
@@ -781,6 +786,21 @@ func (x *repoExec) perform(w *repoWorld, pre *absState, preFacts map[string]*art
 			a.Outcome, a.K = "signfail", nw.fs.Writes+1
 		}
 		obs.Changed, obs.OtherChanged = snapshotDiff(x.l, before, nw.fs)
+		if x.nativeBin == "" {
+			artOf := map[string]string{}
+			for _, e := range x.l.Ents {
+				artOf[x.l.artPath(e)] = e
+			}
+			for _, p := range nw.fs.WriteLog {
+				e, ok := artOf[p]
+				if !ok {
+					e = "?" + p
+				}
+				if n := len(obs.Written); n == 0 || obs.Written[n-1] != e {
+					obs.Written = append(obs.Written, e)
+				}
+			}
+		}
 		nClash := len(x.ht.Clash)
 		x.learnHashes(nw, obs.Changed) // only files this run really wrote
 		obs.HashClash = append([]string{}, x.ht.Clash[nClash:]...)
@@ -905,6 +925,18 @@ func (x *repoExec) envActions(s *absState, enabled map[string]bool, contents int
 			if enabled["DeleteArt"] {
 				out = append(out, repoAct{Name: "DeleteArt", E: e})
 			}
+			if enabled["ResaveArt"] && (a.Cert || a.Key != "none") {
+				// only an artifact that is not stale (Repo.tla, ResaveArt)
+				chainOK := a.Sigok && a.Iss == s.Par[e]
+				if p := s.Par[e]; p == "" {
+					chainOK = chainOK && a.Issc == a.Certc
+				} else {
+					chainOK = chainOK && s.Art[p].Cert && a.Issc == s.Art[p].Certc
+				}
+				if !a.Cert || a.Hash == noHash || chainOK {
+					out = append(out, repoAct{Name: "ResaveArt", E: e})
+				}
+			}
 			if enabled["Truncate"] {
 				for _, c := range []string{"empty", "hashonly", "nokey"} {
 					out = append(out, repoAct{Name: "Truncate", E: e, Cut: c})
@@ -959,7 +991,7 @@ func cmdRepo(args []string) int {
 	maxEnv := fs.Int("max-env", 2, "bound on environment actions along a path")
 	flagSets := fs.String("flagsets", "m,c,o", "flags whose subsets are the run alphabet (e.g. m,c,o)")
 	extraSets := fs.String("extra-flagsets", "", "additional flag sets, ';'-separated, e.g. 'a;m,c,e'")
-	envList := fs.String("env", "Edit,Touch,DeleteArt,Truncate,StripKey,Replace,MakeCsr", "enabled environment actions")
+	envList := fs.String("env", "Edit,Touch,DeleteArt,Truncate,StripKey,ResaveArt,Replace,MakeCsr", "enabled environment actions")
 	faultsOn := fs.Bool("faults", true, "enumerate write faults for every run")
 	shard := fs.Int("shard", 0, "")
 	shards := fs.Int("shards", 1, "")
